@@ -2,7 +2,8 @@
 //!
 //! Deviation-bounded scripted-environment explorer (single thread per execution, no kernel for the
 //! TLS half). See `tls.rs` (compio-tls over an in-memory duplex) and `ws.rs` (compio-ws over two
-//! socketpairs joined by a harness relay on a manually stepped runtime).
+//! socketpairs with minimal kernel buffers joined by a harness relay that owns fragmentation and
+//! write-side back-pressure, on a manually stepped runtime).
 mod duplex;
 mod sched;
 mod tls;
@@ -26,6 +27,19 @@ pub struct Collector {
 }
 
 impl Collector {
+    /// false if an example of this key with a rank at least as small is already held; the
+    /// occurrence is counted then (the caller skips the traced re-execution)
+    pub fn wants(&self, key: &str, rank: u64) -> bool {
+        let mut g = self.map.lock().unwrap();
+        match g.get_mut(key) {
+            Some(e) if e.0 <= rank => {
+                e.2 += 1;
+                false
+            }
+            _ => true,
+        }
+    }
+
     pub fn add(&self, rank: u64, v: Violation) {
         let mut g = self.map.lock().unwrap();
         match g.get_mut(&v.key) {
@@ -314,9 +328,12 @@ fn main() {
     rep.rule(
         "every execution runs the real compio-tls / compio-ws code of both ends to completion under a deterministic \
          two-task scheduler; enumerated: every placement of at most b deviations (1 byte, half, Pending until the harness \
-         opens the gate at the next step / at quiescence; for the WebSocket relay: 1 byte, half, hold) on the choice points \
-         (side, call kind, ordinal) reached by the run with one deviation less, for every configuration listed under \
-         bounds; distinct_nontrivial = distinct (configuration, applied deviation class, result) signatures",
+         opens the gate at the next step / at quiescence; for the WebSocket relay: forwarding 1 byte, half, hold for one \
+         step, and intake: the bytes a compio end wrote are not read until the next step / until nothing else can move, so \
+         that its writes meet the back-pressure of a socket with minimal buffers) on the choice points \
+         (side or direction, call kind, ordinal) reached by the run with one deviation less, for every configuration listed \
+         under bounds; a WebSocket execution ends in the verdict deadlock only with every stall released; \
+         distinct_nontrivial = distinct (configuration, applied deviation class, result, back-pressure met or not) signatures",
     );
     let mut bounds = serde_json::Map::new();
     if only.as_deref() != Some("ws") {
@@ -345,6 +362,10 @@ fn main() {
     rep.extra("bounds", serde_json::Value::Object(bounds));
     rep.assume("the TLS libraries (rustls via futures-rustls, OpenSSL via native-tls) and tungstenite are exercised as they are; a defect inside them would surface as a violation of the layer");
     rep.assume("a side is re-polled only after a wake-up through the waker of its latest poll; wake-ups through older wakers are counted and ignored");
+    if only.as_deref() != Some("tls") {
+        rep.assume("ws: the compio ends run on kernel AF_UNIX stream sockets with SO_SNDBUF/SO_RCVBUF at the kernel minimum; how many bytes a write is accepted for while the relay does not read is the kernel's answer (measured at start-up, recorded under bounds.ws.socket_buffers; the same for every execution on one kernel), the harness owns only when the relay reads and how much it forwards; the relay's own forwarding never blocks (default send buffer, every scenario's traffic fits)");
+        rep.assume("ws: duplex programs drive the Sink half (poll_ready, start_send, poll_flush per message) and the Stream half (poll_next) of one WebSocketStream from one task with one waker, send part first; two tasks with different wakers on the two halves are not explored. In scenarios without a close handshake a side stops reading once it has received what it expects, so a surplus message after the last expected one would not be seen there (it is seen in every scenario that ends with a close handshake, which reads until the stream ends)");
+    }
     for (_, (_, v, n)) in col.map.into_inner().unwrap() {
         let mut v = v;
         v.what = format!("{} [{} failing executions in this class]", v.what, n);
